@@ -22,7 +22,7 @@ RULE = ('state = set of (operator, keys_in) entries cached in the live Algebra; 
         'zero compile()/do_codegen/do_compile events, every label is generated at most once per history, caches never shrink.')
 ASSUMPTIONS = ['every code generation path of kingdon ends in builtins.compile called from a frame in kingdon/ and goes through '
                'operator_dict.do_codegen or do_compile (true for the pinned tree; a new path would show up as un-attributed compile events)']
-BOUNDS = {'quick': 'Algebra(3): 37 call forms x 2 key patterns x 8 coefficient types; [c,c\'] complete; [c,o,c\'] with c over 2 types, o over 37 forms, c\' over 3 types',
+BOUNDS = {'quick': 'Algebra(3): 37 call forms x 2 key patterns x 8 coefficient types; [c,c\'] complete; [c,o,c\'] with c over 2 types, o over 37 forms, c\' over 2 types; long histories of 700 distinct patterns (gp, neg) on Algebra(4)',
           'thorough': '[c,c\'] complete on Algebra(3) and Algebra(2,0,1); [c,o,c\'] with c over 4 types, o over all forms x 2 patterns, c\' over 8 types; '
                       'histories of length 4 [c,o1,o2,c\'] on a 12-form sub-alphabet'}
 
@@ -237,6 +237,63 @@ def histories(tier, algname):
     return out
 
 
+def long_history(task):
+    """One long history on one algebra: N distinct key patterns of one operator, then the first ones again.
+    Bounded caches / eviction / cache resets only show after many distinct patterns."""
+    algname, opname, n = task
+    from itertools import combinations, permutations
+    res = Result()
+    probe = Probe()
+    probe.install()
+    try:
+        from kingdon import Algebra, MultiVector
+        alg = Algebra(4)
+        keys = list(alg.canon2bin.values())
+        pats = []
+        for k in (1, 2, 3):
+            for c in combinations(keys, k):
+                for p in permutations(c):
+                    pats.append(p)
+                    if len(pats) >= n:
+                        break
+                if len(pats) >= n:
+                    break
+            if len(pats) >= n:
+                break
+        b = MultiVector.fromkeysvalues(alg, (keys[1],), [2])
+
+        def call(p, v):
+            x = MultiVector.fromkeysvalues(alg, p, [v + i for i in range(len(p))])
+            return getattr(x, opname)(b) if opname in BINARY else getattr(x, opname)()
+        od = getattr(alg, opname)
+        sizes = []
+        for p in pats:
+            call(p, 1)
+            res.transitions += 1
+            sizes.append(len(od))
+        if any(b2 < a for a, b2 in zip(sizes, sizes[1:])) or len(od) < len(pats):
+            res.violate(violation(f'long-history:cache-shrinks:{opname}', f'after {len(pats)} distinct key patterns of {opname} the cache holds {len(od)} entries (sizes not monotone)',
+                                  {'long': [algname, opname, n]}, len(pats), len(od)))
+        for p in pats[:5] + pats[len(pats) // 2: len(pats) // 2 + 3]:
+            e0, c0 = probe.mark()
+            call(p, 2.5)
+            res.transitions += 1
+            e1, c1 = probe.mark()
+            if e1 > e0 or c1 > c0:
+                res.violate(violation(f'long-history:regenerated:{opname}', f'{opname} pattern {p} was generated again after {len(pats)} other patterns had been used', {'long': [algname, opname, n]},
+                                      '0 events', f'{probe.events[e0:e1][:2]} compiles={c1 - c0}'))
+                break
+        res.evals += 1
+        res.states = 1
+    finally:
+        probe.uninstall()
+    d = res.asdict()
+    d['state_keys'] = [hash((opname, n))]
+    d['events_seen'] = len(probe.events)
+    d['compiles_seen'] = probe.compiles
+    return d
+
+
 def run_chunk(task):
     algname, hists = task
     from .. import bootstrap
@@ -273,6 +330,15 @@ def drive(ctx):
             compiles += out.pop('compiles_seen')
             merge(ctx.agg, out)
         ctx.agg['extra'][f'histories[{algname}]'] = len(hs)
+    # long histories: many distinct patterns of one operator on one algebra
+    n = 700 if tier == 'quick' else 2500
+    lops = ['gp', 'neg'] if tier == 'quick' else ['gp', 'add', 'neg', 'reverse', 'ip', 'normsq', 'sub']
+    for out in ctx.map('long_history', [('vga4', o, n) for o in lops]):
+        allstates |= set(out.pop('state_keys'))
+        events += out.pop('events_seen')
+        compiles += out.pop('compiles_seen')
+        merge(ctx.agg, out)
+    ctx.agg['extra']['long_histories'] = {'operators': lops, 'distinct_patterns_each': n}
     ctx.agg['states'] = len(allstates)
     ctx.agg['traces'] = ctx.agg['evals']
     ctx.agg['nontrivial'] = len(allstates)
@@ -286,6 +352,11 @@ def drive(ctx):
 
 
 def replay(case):
+    if 'long' in case:
+        out = long_history(tuple(case['long']))
+        for k in ('state_keys', 'events_seen', 'compiles_seen'):
+            out.pop(k)
+        return out
     res = Result()
     probe = Probe()
     probe.install()
